@@ -205,6 +205,24 @@ def binop_case(G, nm, op, only=None, skip=()):
         C.fn(lab, v, s_, L, indep=ind)
     return C
 
+def binop_alias_case(G, nm, op):
+    """compound assignment whose scalar right-hand side is a COMPONENT OF THE ASSIGNED VECTOR (v *= v.x, v /= v[L-1]): every component is combined with the original value"""
+    t, L, c = G.t, G.L, G.c; W = wd(t); VT = G.VT(); Va = G.V('a'); ks = sorted({0, L - 1})
+    def pre(i):
+        a = i[0]; h = []
+        for k in ks:
+            if op in ('/', '%') and not isf(t):
+                h.append(a[k] != 0)
+                if issg(t) and W >= 32: h += [z3.Not(z3.And(x == bvv(1 << (W - 1), x), a[k] == bvv(-1, x))) for x in a]
+            if op in ('<<', '>>'):
+                WW = max(32, W); h.append(z3.ULT(zx(a[k], 64), z3.BitVecVal(WW, 64)) if not issg(t) else z3.And(a[k] >= 0, sx(a[k], 64) < WW))
+        return h
+    C = Case('op_%s_alias_L%d' % (nm, L), [(c, L)], [c], pre=pre if (op in ('/', '%', '<<', '>>') and not isf(t)) else None,
+             bounds='right-hand side is a component of the assigned vector; ' + {'/': 'divisors != 0, no INT_MIN/-1', '%': 'divisors != 0, no INT_MIN/-1', '<<': '0 <= count < max(32,width)', '>>': '0 <= count < max(32,width)'}.get(op, 'all values'))
+    for k in ks:
+        C.fn('self%d' % k, '[&]{ %s v = %s; v %s= v[%d]; return v; }()' % (VT, Va, op, k), 'a[#] %s a[%d]' % (op, k), L)
+    return C
+
 def unary_case(G):
     t, L, c = G.t, G.L, G.c; VT = G.VT(); Va = G.V('a')
     C = Case('op_unary_L%d' % L, [(c, L)], [c], bounds='all values', known=['KF-C01-vec34-negate-zero'] if isf(t) and L >= 3 else [])
@@ -227,9 +245,9 @@ def eqop_case(G):
 
 def gen_ops(G):
     t = G.t; out = []
-    for nm, op in ARITH: out.append(binop_case(G, nm, op, skip=BROKEN))
+    for nm, op in ARITH: out.append(binop_case(G, nm, op, skip=BROKEN)); out.append(binop_alias_case(G, nm, op))
     if not isf(t):
-        for nm, op in BITOPS: out.append(binop_case(G, nm, op, skip=BROKEN))
+        for nm, op in BITOPS: out.append(binop_case(G, nm, op, skip=BROKEN)); out.append(binop_alias_case(G, nm, op))
     out += [unary_case(G), eqop_case(G)]
     return out
 
